@@ -308,6 +308,37 @@ def check(ctx):
         lv = df.leaves(defs, arg) if arg is not None else set()
         ok = ("param", p0) in lv and not sliced
         ctx.ob("R6", f"{CC}:code_cache_name", f"{short(c, 60)} digests the whole `{p0}` (no slice/prefix)", ok, key="digest-partial", where=loc(c))
+    # script-cache names: the path mangling must be injective (two scripts never share an entry).
+    # The scheme is an escape code: every mapped character becomes <esc><char>; it is uniquely
+    # decodable iff all images are distinct two-character strings starting with the escape character
+    # and the escape character itself is mapped.
+    try:
+        from ..engine.fold import Folder, NotConstant
+        from ..engine import dtable as _dt
+
+        cm = mod.func("_CHARACTER_MAP")
+        fld = Folder(mod)
+        env_ = {}
+        cmap = None
+        for stt in cm.body:
+            if isinstance(stt, ast.Assign) and isinstance(stt.targets[0], ast.Name):
+                env_[stt.targets[0].id] = fld.fold(stt.value, dict(env_))
+            elif isinstance(stt, ast.Expr) and isinstance(stt.value, ast.Call) and last_attr(stt.value) == "update" and isinstance(stt.value.func.value, ast.Name):
+                env_[stt.value.func.value.id].update(fld.fold(stt.value.args[0], dict(env_)))
+            elif isinstance(stt, ast.Return):
+                cmap = fld.fold(stt.value, dict(env_))
+        del _dt
+    except (NotConstant, AnchorMissing, KeyError, AttributeError, TypeError) as e:
+        raise AnalysisError(f"{CC}:_CHARACTER_MAP is no longer a foldable table: {e}")
+    if not isinstance(cmap, dict) or len(cmap) < 10:
+        raise AnalysisError(f"{CC}:_CHARACTER_MAP folded to {type(cmap).__name__}")
+    vals = list(cmap.values())
+    escs = {v[0] for v in vals if isinstance(v, str) and len(v) == 2}
+    ok = len(escs) == 1 and all(isinstance(v, str) and len(v) == 2 for v in vals) and len(set(vals)) == len(vals) and next(iter(escs)) in cmap
+    ctx.ob("R6", f"{CC}:_CHARACTER_MAP", f"the script-cache path mangling is an injective escape code ({len(cmap)} mapped characters, escape character {sorted(escs)} itself escaped)", ok, key="cache-name-mangling-not-injective", where=loc(cm))
+    cr = mod.func("_cache_renamer")
+    ok = any(isinstance(n, ast.Call) and call_name(n) == "_CHARACTER_MAP.get" and len(n.args) == 2 and unparse(n.args[0]) == unparse(n.args[1]) for n in ast.walk(cr)) and any(call_name(c) == "os.path.realpath" for c in calls_in(cr)) and any(call_name(c) == "_splitpath" for c in calls_in(cr))
+    ctx.ob("R6", f"{CC}:_cache_renamer", "every character of every path component of the real path goes through the map (unmapped characters unchanged)", ok, key="cache-renamer-shape", where=loc(cr))
     # the digest's hexdigest is what is returned
     for n in walk_local(ccn):
         if isinstance(n, ast.Return):
